@@ -345,9 +345,15 @@ func (s *Server) Snapshot() (*vh.Snapshot, error) {
 	defer db.Close()
 	var last error
 	for i := 0; i < 20; i++ {
-		snap, err := vh.ReadSnapshot(db)
+		// one read transaction: a consistent view across the five tables
+		tx, err := db.Begin()
 		if err == nil {
-			return snap, nil
+			var snap *vh.Snapshot
+			snap, err = vh.ReadSnapshot(tx)
+			_ = tx.Rollback()
+			if err == nil {
+				return snap, nil
+			}
 		}
 		last = err
 		time.Sleep(50 * time.Millisecond)
